@@ -4,6 +4,7 @@ import (
 	"fmt"
 	"go/types"
 	"sort"
+	"strings"
 
 	"golang.org/x/tools/go/ssa"
 )
@@ -124,6 +125,7 @@ func (c *FnCtx) lemmaParts(lem *Lemma, bind map[string]sv) (req []string, ens []
 // verifyLemma generates the proof obligations of a lemma (explicit induction, DESIGN §2.4.5).
 func (e *Engine) verifyLemma(lem *Lemma, props []string) *fnResult {
 	c := e.lemmaCtx(lem)
+	c.lemmaHeapValid = lem.HeapValid
 	res := &fnResult{key: c.key}
 	bind := map[string]sv{}
 	for _, p := range lem.Params {
@@ -225,6 +227,28 @@ func (e *Engine) verifyLemma(lem *Lemma, props []string) *fnResult {
 			bind2[k] = v
 		}
 		bind2[lem.Induct] = sv{sub(iv.t, "1"), iv.ty}
+		var gvars [][2]string
+		var gguards []string
+		for _, g := range lem.General {
+			pv, ok := bind[g]
+			if !ok || g == lem.Induct {
+				res.attachErr = "generalize: unknown parameter " + g
+				return res
+			}
+			c.nfresh++
+			n := fmt.Sprintf("%s!q%d", g, c.nfresh)
+			srt := c.sorts.sortOf(pv.ty)
+			gvars = append(gvars, [2]string{n, srt})
+			bind2[g] = sv{n, pv.ty}
+			switch types.Unalias(pv.ty).Underlying().(type) {
+			case *types.Slice:
+				gguards = append(gguards, app("validSlice", n))
+			case *types.Interface:
+				gguards = append(gguards, app("validVal", n))
+			case *types.Pointer, *types.Map:
+				gguards = append(gguards, le("0", n))
+			}
+		}
 		req2, ens2, _, dec2, err := c.lemmaParts(lem, bind2)
 		if err != nil {
 			res.attachErr = err.Error()
@@ -247,7 +271,37 @@ func (e *Engine) verifyLemma(lem *Lemma, props []string) *fnResult {
 			res.attachErr = "induct needs a decreases clause"
 			return res
 		}
-		c.assume(implies(guard, and(ens2...))) // induction hypothesis
+		if len(gvars) > 0 {
+			// structural induction: the hypothesis for the smaller measure holds for all values of
+			// the generalised parameters (instantiated through the lemma's trigger)
+			env2 := &specEnv{c: c, vars: bind2, heap: c.cur}
+			if p := c.eng.pkgs[lem.Pkg]; p != nil {
+				env2.pkg = p.Pkg
+			}
+			var pats []string
+			var perr error
+			for _, t := range lem.Triggers {
+				func() {
+					defer func() {
+						if r := recover(); r != nil {
+							perr = fmt.Errorf("trigger: %v", r)
+						}
+					}()
+					pats = append(pats, env2.eval(t).t)
+				}()
+			}
+			if perr != nil || len(pats) == 0 {
+				res.attachErr = "generalize needs a trigger clause that attaches"
+				return res
+			}
+			var needAll []string
+			needAll = append(needAll, gguards...)
+			needAll = append(needAll, req2...)
+			g2 := and(append(needAll, le("0", dec2), lt(dec2, dec))...)
+			c.assume(forall(gvars, implies(g2, and(ens2...)), strings.Join(pats, " ")))
+		} else {
+			c.assume(implies(guard, and(ens2...))) // induction hypothesis
+		}
 	}
 	for i, t := range ens {
 		c.oblige("lemma", props, "true", t, 0, ensCl[i], "lemma "+lem.Name+": "+ensCl[i].Text)
